@@ -246,7 +246,7 @@ def ob_md_getitem(shape, eps=None):
         return out
     lo = 0.0 if eps else 1e-6
     return FnOb(_ps_inputs(n, lo) + [(f"i{k}", "int", 0, shape[k] - 1) for k in range(len(shape))] + [("s", "int", 0, n - 1)], run,
-                assume=lambda I: _sum1(I, n, lo), max_paths=400, expect_nonlinear=bool(eps), eager_ite=bool(eps))
+                assume=lambda I: _sum1(I, n, lo), max_paths=2000, expect_nonlinear=bool(eps), eager_ite=bool(eps))
 
 
 def ob_validate(n, validate_sum):
